@@ -394,6 +394,18 @@ def run(ctx):
                                                                  "levenshtein", "precomputed"])
     dspecs.append({"kind": "positional", "delta": 1.0})
     dspecs.append({"kind": "combined", "alpha": 1.0, "beta": 1.0, "delta": 1.0, "pos": None, "cat": None})
+    # deciding monitors first, whatever the time budget: identical annotators; one sampler object serving two computations
+    base0 = cases.gen_continuum(rng, n_annot=1, max_units=4, allow_empty=False, labels=cases.LABELS_SMALL, family="grid", names=["x"])
+    ident = {"ann": {n_: [list(u) for u in base0["ann"]["x"]] for n_ in cases.ANNOTATOR_NAMES[:3]}, "family": "identical-annotators"}
+    pos0 = {"kind": "positional", "delta": 1.0}
+    for case in ({"continuum": ident, "dissim": pos0, "n_samples": 4, "precision": None, "sampler": "statistical", "mode": "exact",
+                  "ground_truth": None, "np_seed": 11, "identical": True},
+                 {"continuum": ident, "dissim": pos0, "sampler": "shuffle_float", "identical": True,
+                  "session": [{"ground_truth": None, "n_samples": 3, "precision": None, "mode": "exact", "np_seed": 5},
+                              {"ground_truth": cases.ANNOTATOR_NAMES[:2], "n_samples": 2, "precision": None, "mode": "soft", "np_seed": 6}]}):
+        ctx.begin_case(case)
+        ctx.observe("mode", "deterministic-first-block")
+        check_case(ctx, case)
     label_free = [d for d in dspecs if cases.dissim_labels(d) is None]
     for i in range(ctx.scale(3, 30)):
         a = cases.gen_continuum(rng, n_annot=rng.randint(2, 3), max_units=4, allow_empty=False, labels=["l1", "l2"], names=["left_0", "left_1", "left_2"][:3])
